@@ -62,11 +62,11 @@ ProjObligations(P, o, D) ==
       <<"empty_complement", o.empty_comp = ce>>,
       <<"complement_witness", ~ce => (o.witness \in 0..MaxChar /\ ~InSome(P, o.witness))>>,
       <<"num_classes", o.nclasses = n + (IF ce THEN 0 ELSE 1)>>,
-      <<"class_ids", o.ids = ids>>,
+      <<"class_ids", SeqSet(o.ids) = SeqSet(ids) /\ Len(o.ids) = Len(ids)>>,
+      \* picks: exactly one member of every non-empty class (the property does not fix their order)
       <<"picks", /\ Len(o.picks) = Len(ids)
-                 /\ \A j \in 1..Len(o.picks) : j <= Len(ids) =>
-                       IF ids[j] >= 0 THEN ids[j] + 1 <= Len(o.ivs) /\ Mem(o.ivs[ids[j] + 1], o.picks[j])
-                       ELSE o.picks[j] \in 0..MaxChar /\ ~InSome(P, o.picks[j])>>,
+                 /\ \A c \in P : Cardinality({j \in 1..Len(o.picks) : Mem(c, o.picks[j])}) = 1
+                 /\ ~ce => Cardinality({j \in 1..Len(o.picks) : o.picks[j] \in 0..MaxChar /\ ~InSome(P, o.picks[j])}) = 1>>,
       <<"valid_class_id", \A j \in 1..Len(o.valid) :
                               o.valid[j].v = (IF o.valid[j].cid >= 0 THEN o.valid[j].cid < n ELSE ~ce)>>}
 
